@@ -179,6 +179,44 @@ fn main() {
     let a: Vec<String> = std::env::args().collect();
     match a[1].as_str() {
         "window" => window(&a[2], a[3].parse().unwrap()),
+        // simd <nmax>: sum/min/max kernels against naive definitions for every length 0..=nmax on distinct-power-of-two inputs (a dropped,
+        // duplicated or mis-indexed element changes the sum) and on sign/inf patterns; run it twice: as is (AVX2 target when the CPU has it)
+        // and with RUST_STD_DETECT_UNSTABLE=avx2 (scalar target)
+        "simd" => {
+            use varpulis_runtime::simd::{max_f64, min_f64, sum_f64};
+            let nmax: usize = a[2].parse().unwrap();
+            println!("avx2 detected: {}", std::arch::is_x86_feature_detected!("avx2"));
+            for n in 0..=nmax {
+                let pats: Vec<Vec<f64>> = vec![(0..n).map(|i| (1u64 << i) as f64).collect(), (0..n).map(|i| -((1u64 << (i + 3)) as f64) + 1.0).collect(),
+                    (0..n).map(|i| if i % 2 == 0 { (i as f64) - 7.5 } else { 100.0 - i as f64 }).collect(), (0..n).map(|i| if i == n - 1 { f64::NEG_INFINITY } else { i as f64 }).collect(),
+                    (0..n).map(|i| if i == 0 { f64::INFINITY } else { -(i as f64) }).collect()];
+                for v in pats {
+                    let s: f64 = v.iter().fold(0.0, |a, b| a + b);
+                    let got = sum_f64(&v);
+                    if v.iter().all(|x| x.is_finite() && x.fract() == 0.0) && got != s { println!("REPRODUCED sum_f64({:?}) = {got}, expected {s}", v); std::process::exit(1); }
+                    let mn = v.iter().cloned().fold(None, |m: Option<f64>, x| Some(m.map_or(x, |y| if x < y { x } else { y })));
+                    let mx = v.iter().cloned().fold(None, |m: Option<f64>, x| Some(m.map_or(x, |y| if x > y { x } else { y })));
+                    if min_f64(&v) != mn { println!("REPRODUCED min_f64({:?}) = {:?}, expected {:?}", v, min_f64(&v), mn); std::process::exit(1); }
+                    if max_f64(&v) != mx { println!("REPRODUCED max_f64({:?}) = {:?}, expected {:?}", v, max_f64(&v), mx); std::process::exit(1); }
+                }
+            }
+            #[cfg(varpulis_verif)]
+            for n in 0..=nmax {
+                use varpulis_runtime::simd::verif_hooks::{max_f64_scalar, min_f64_scalar, sum_f64_scalar};
+                let pats: Vec<Vec<f64>> = vec![(0..n).map(|i| (1u64 << i) as f64).collect(), (0..n).map(|i| -((1u64 << (i + 3)) as f64) + 1.0).collect(),
+                    (0..n).map(|i| if i % 2 == 0 { (i as f64) - 7.5 } else { 100.0 - i as f64 }).collect()];
+                for v in pats {
+                    let s: f64 = v.iter().fold(0.0, |a, b| a + b);
+                    if v.iter().all(|x| x.fract() == 0.0) && sum_f64_scalar(&v) != s { println!("REPRODUCED sum_f64_scalar({:?}) = {}, expected {s}", v, sum_f64_scalar(&v)); std::process::exit(1); }
+                    if n > 0 {
+                        let mn = v.iter().cloned().fold(f64::INFINITY, |y, x| if x < y { x } else { y }); let mx = v.iter().cloned().fold(f64::NEG_INFINITY, |y, x| if x > y { x } else { y });
+                        if min_f64_scalar(&v) != mn { println!("REPRODUCED min_f64_scalar({:?}) = {}, expected {mn}", v, min_f64_scalar(&v)); std::process::exit(1); }
+                        if max_f64_scalar(&v) != mx { println!("REPRODUCED max_f64_scalar({:?}) = {}, expected {mx}", v, max_f64_scalar(&v)); std::process::exit(1); }
+                    }
+                }
+            }
+            println!("OK simd kernels agree with the definitions for lengths 0..={nmax} (scalar kernels through hooks: {})", cfg!(varpulis_verif));
+        }
         // valueq: native probe of Value equality / hashing over a pool of boundary values (special floats, permuted maps, nested arrays)
         "valueq" => {
             use std::hash::{Hash, Hasher};
